@@ -1,0 +1,10 @@
+//go:build verif
+// +build verif
+
+// Contracts for the verification machinery in /verif (comment-only; compiled only with -tags verif).
+package printer
+
+// C13 / C11: an observer writes only its own state; it never writes a field of an ast node,
+// token or position, nor an element of a tree-owned slice, nor anything reachable from a
+// package-level variable.
+//@ frame printer: roots=(*printer).*;NewPrinter allow=F:pkg/visitor/printer.printer.* props=C13,C11
